@@ -72,8 +72,52 @@ def is_fabs_of(p, arg):
     return fa[1].equals(arg) or fa[1].equals(-arg)
 
 
+def cond_gt(c, diff):
+    """is c the strict comparison  diff > 0  in any arrangement of its terms (a > b, b < a, with terms moved across)?"""
+    if not (isinstance(c, Cond) and c.kind == 'cmp' and isinstance(c.a, Poly) and isinstance(c.b, Poly)):
+        return False
+    if c.op == '>':
+        return (c.a - c.b).equals(diff)
+    if c.op == '<':
+        return (c.b - c.a).equals(diff)
+    return False
+
+
 def cond_is(c, op, left_is, right_is):
     return isinstance(c, Cond) and c.kind == 'cmp' and c.op == op and left_is(c.a) and right_is(c.b)
+
+
+def refute_avg(c, s, a, phase, d):
+    """evaluate the abstract (CX, SX, flag) at concrete boundary points and compare with the specification"""
+    import math
+    from guarded import eval_at
+    names = sorted(set(phase.vars()) - {'t'})
+    pts = []
+    for tval in (0.0, 1.0, -2.0):
+        for hsel in ('zero', 'ramp', 'neg'):
+            base = {('v', 't'): Poly.const(tval)}
+            for i, nm in enumerate(names):
+                base[('v', nm)] = Poly.const(0.0 if hsel == 'zero' else ((i + 1) * 0.37 if hsel == 'ramp' else -(i + 2) * 1.9))
+            ph0 = eval_at(phase, base)
+            scales = [0.0, 1.0, -1.0, 1e-3, 1e12]
+            if ph0 is not None:
+                scales += [ph0, -ph0, 2 * ph0, 0.5 * ph0]  # threshold hit exactly, from both sides, either sign of the scale
+            for scale in scales:
+                m = dict(base)
+                m[('v', 'scale')] = Poly.const(scale)
+                pts.append((tval, scale, hsel, m))
+    for tval, scale, hsel, m in pts:
+        ph = eval_at(phase, m)
+        if ph is None:
+            continue
+        averaged = abs(ph) > abs(scale)
+        want = (0.0, 0.0, 1.0) if averaged else (math.cos(ph), math.sin(ph), 0.0)
+        got = (eval_at(c, m), eval_at(s, m), eval_at(a, m))
+        if any(g is None for g in got):
+            continue
+        if any(abs(g - w) > 1e-9 for g, w in zip(got, want)):
+            return 't=%g scale=%g H=%s: phase=%g, (cos,sin,flag) = (%g,%g,%g), specification (%g,%g,%g)' % ((tval, scale, hsel, ph) + got + want)
+    return None
 
 
 def check_avg(db, rep):
@@ -110,7 +154,9 @@ def check_avg(db, rep):
                     break
                 cnd = v.cond
                 # strict comparison |term| > |scale|, term = the pair's phase
-                if not cond_is(cnd, '>', lambda p: is_fabs_of(p, want_arg), lambda p: is_fabs_of(p, scale)):
+                if not (cond_is(cnd, '>', lambda p: is_fabs_of(p, want_arg), lambda p: is_fabs_of(p, scale))
+                        or cond_is(cnd, '>', lambda p: isinstance(p, Poly) and p.equals(want_arg * want_arg), lambda p: isinstance(p, Poly) and p.equals(scale * scale))
+                        or cond_is(cnd, '<', lambda p: is_fabs_of(p, scale), lambda p: is_fabs_of(p, want_arg))):
                     if cond_is(cnd, '>', lambda p: True, lambda p: is_fabs_of(p, scale)) or cond_is(cnd, '>=', lambda p: True, lambda p: True) \
                             or cond_is(cnd, '<', lambda p: True, lambda p: True):
                         pass
@@ -132,7 +178,15 @@ def check_avg(db, rep):
                 if k == 0:
                     rep.sample('A.avg.thresh', 'd=%d pair 0: SX=%r' % (d, s))
             else:
-                rep.fail('A.avg.thresh', site, where, '|phase_k| > |scale| ? (0,0,true) : (sin,cos,false) with phase_k = %s' % want_arg, why, f['name'])
+                # the guard structure is not the one recognised above: that alone is no violation.  Evaluate the
+                # abstract result at boundary points of the specification (zero / equal / larger phase, zero /
+                # negative / huge scale); a point where it differs from the specification is a counterexample
+                cex = refute_avg(c, s, a, want_arg, d)
+                if cex:
+                    rep.fail('A.avg.thresh', site, where, '|phase_k| > |scale| ? (0,0,true) : (sin,cos,false) with phase_k = %s' % want_arg,
+                             '%s; counterexample %s' % (why, cex), f['name'])
+                else:
+                    rep.break_('%s: %s — structure not recognised and no counterexample among the boundary points; cannot decide' % (site, why))
     rep.floor('A.avg.thresh', n_thr, 35)
     return n_term
 
@@ -142,7 +196,7 @@ def ramp_table_ok(v, X, term, cutoff, scale):
     fabs = lambda p: apply_func('fabs', p)
     if not isinstance(v, ITE):
         return 'not a guarded value: %r' % (v,)
-    if not cond_is(v.cond, '>', lambda p: is_fabs_of(p, term), lambda p: is_fabs_of(p, cutoff)):
+    if not cond_gt(v.cond, fabs(term) - fabs(cutoff)):
         return 'outer guard %r' % (v.cond,)
     if not (isinstance(v.a, Poly) and v.a.is_zero()):
         return 'value above the cutoff is %r, expected 0' % (v.a,)
@@ -150,15 +204,53 @@ def ramp_table_ok(v, X, term, cutoff, scale):
     if not isinstance(inner, ITE):
         return 'no ramp region: %r' % (inner,)
     thr = fabs(cutoff) - fabs(scale)
-    if not cond_is(inner.cond, '>', lambda p: is_fabs_of(p, term), lambda p: p.equals(thr)):
+    if not cond_gt(inner.cond, fabs(term) - thr):
         return 'ramp guard %r' % (inner.cond,)
-    # recover fabs(term) as written (sign-normalised atom)
-    ft = inner.cond.a
+    ft = fabs(term)
     want = (X * (fabs(cutoff) - ft)).div(fabs(scale))
     if not (isinstance(inner.a, Poly) and inner.a.equals(want)):
         return 'ramp value %r, expected %s' % (inner.a, want)
     if not (isinstance(inner.b, Poly) and inner.b.equals(X)):
         return 'pass-through value %r, expected %s' % (inner.b, X)
+    return None
+
+
+def refute_ramp(cells, term, has_t):
+    """evaluate the filtered table entries at boundary points of the piecewise specification"""
+    from guarded import eval_at
+    names = sorted(set(term.vars()) - {'t'})
+    for tval in ((1.0, -2.0, 0.0) if has_t else (1.0,)):
+        for hsel in ('ramp', 'neg', 'zero'):
+            base = {('v', 't'): Poly.const(tval)}
+            for i, nm in enumerate(names):
+                base[('v', nm)] = Poly.const(0.0 if hsel == 'zero' else ((i + 1) * 0.37 if hsel == 'ramp' else -(i + 2) * 1.9))
+            x = eval_at(term, base)
+            if x is None:
+                continue
+            ax = abs(x)
+            # (cutoff, scale) chosen so that |term| falls below the ramp, on its edges, inside it and above the cutoff
+            combos = [(2 * ax + 1, 0.5), (ax, 0.0), (ax, 0.25 * ax), (1.25 * ax, 0.5 * ax), (1.25 * ax, -0.5 * ax), (-1.25 * ax, 0.5 * ax),
+                      (0.5 * ax, 0.1 * ax), (ax + 1.0, 1.0), (ax + 0.5, 1.0), (ax + 0.5, -1.0), (4.0, 4.0), (1.0, 0.0), (0.0, 0.0)]
+            for cutoff, scale in combos:
+                if abs(scale) > abs(cutoff):
+                    continue  # rejected by the entry guard
+                m = dict(base)
+                m[('v', 'cutoff')] = Poly.const(cutoff)
+                m[('v', 'scale')] = Poly.const(scale)
+                if ax > abs(cutoff):
+                    w = 0.0
+                elif ax > abs(cutoff) - abs(scale):
+                    w = (abs(cutoff) - ax) / abs(scale)
+                else:
+                    w = 1.0
+                for v, xname in cells:
+                    mm = dict(m)
+                    mm[('v', xname)] = Poly.const(1.0)
+                    g = eval_at(v, mm)
+                    if g is None:
+                        continue
+                    if abs(g - w) > 1e-9:
+                        return 't=%g term=%g cutoff=%g ramp=%g: factor applied to %s is %g, specification %g' % (tval, x, cutoff, scale, xname, g, w)
     return None
 
 
@@ -214,8 +306,14 @@ def check_ramp(db, rep):
                     if k == 0 and d == 3:
                         rep.sample('A.ramp.piece', '%s d=3 pair 0: CX -> %r' % (name, buf.cell(0).value))
                 else:
-                    rep.fail('A.avg.term', site, where,
-                             'x0 above |cutoff|, linear ramp (|cutoff|-|term|)/|scale| inside, untouched below; term = %s' % term, bad, f['name'])
+                    # not the recognised piecewise structure: refute at boundary points or give up, never report on shape alone
+                    cex = refute_ramp([(buf.cell(k).value, 'CX%d' % k), (buf.cell(npair + k).value, 'SX%d' % k)], term, fam == 'AvgRamp')
+                    if cex:
+                        rep.fail('A.avg.term', site, where,
+                                 'x0 above |cutoff|, linear ramp (|cutoff|-|term|)/|scale| inside, untouched below; term = %s' % term,
+                                 '%s; counterexample %s' % (bad, cex), f['name'])
+                    else:
+                        rep.break_('%s: %s — structure not recognised and no counterexample among the boundary points; cannot decide' % (site, bad))
             # divisions: only by |scale| and only where guards imply |scale| > 0
             for node, num, den, assumptions in hooks.divisions:
                 site = '%s/%d/div@%s' % (name, d, unit.loc(node).split(':')[-1])
@@ -229,29 +327,36 @@ def check_ramp(db, rep):
 
 
 def division_guarded(den, assumptions):
-    """den is provably non-zero under the assumptions if there are guards  X > P  and  X <= C  with C - P == den
-    (then den > 0), or a guard den != 0 / den > 0 / |..| forms thereof"""
-    los, his = [], []
+    """den is provably non-zero under the assumptions: every guard is read as S > 0 (strict) or N >= 0; den != 0 if den
+    (or -den) equals one strict quantity plus at most two non-strict ones (a positive combination with unit weights),
+    or if a guard states den != 0 directly"""
+    strict, weak = [], []
     for a in assumptions:
-        if not isinstance(a, Cond) or a.kind != 'cmp':
+        if not isinstance(a, Cond) or a.kind != 'cmp' or not isinstance(a.a, Poly) or not isinstance(a.b, Poly):
             continue
         if a.op == '>':
-            los.append((a.a, a.b))  # a > b
-            if a.a.equals(den) and a.b.is_const() and a.b.const_value() >= 0:
-                return True
-        elif a.op == '<=':
-            his.append((a.a, a.b))  # a <= b
-        elif a.op == '!=':
-            if (a.a - a.b).equals(den) or (a.b - a.a).equals(den) or (a.a.equals(den) and a.b.is_zero()):
-                return True
+            strict.append(a.a - a.b)
         elif a.op == '<':
-            los.append((a.b, a.a))
+            strict.append(a.b - a.a)
         elif a.op == '>=':
-            his.append((a.b, a.a))
-    for x1, p in los:
-        for x2, c in his:
-            if x1.equals(x2) and (c - p).equals(den):
+            weak.append(a.a - a.b)
+        elif a.op == '<=':
+            weak.append(a.b - a.a)
+        elif a.op == '!=':
+            if (a.a - a.b).equals(den) or (a.b - a.a).equals(den):
                 return True
+    for target in (den, -den):
+        for s_ in strict:
+            if s_.equals(target):
+                return True
+            r1 = target - s_
+            for i, w1 in enumerate(weak):
+                if w1.equals(r1):
+                    return True
+                r2 = r1 - w1
+                for w2 in weak[i + 1:]:
+                    if w2.equals(r2):
+                        return True
     return False
 
 
